@@ -51,6 +51,7 @@ fn run_once(id: usize, sc: &Scn, prefix: &[usize]) -> Result<Exec, String> {
         }
     }
     cli::cleanup(&o);
+    // 96 = the program itself is deadlocked (quiescent, no thread enabled): an observation, judged like any other outcome
     if o.code == 97 || o.code == 98 || o.code >= 1000 {
         return Err(format!("scheduler reported exit {} (97 = stuck, 98 = infeasible choice) for prefix {:?}; trace:\n{}", o.code, prefix, trace));
     }
@@ -70,7 +71,7 @@ fn run_once(id: usize, sc: &Scn, prefix: &[usize]) -> Result<Exec, String> {
 }
 
 fn scenarios(thorough: bool) -> Vec<Scn> {
-    let alpha = [Kind::Missing, Kind::Unparseable, Kind::Unformatted, Kind::Formatted];
+    let alpha = [Kind::Missing, Kind::Unparseable, Kind::Unformatted, Kind::Formatted, Kind::NotDir];
     let mut v = vec![];
     let max = if thorough { 3 } else { 3 };
     // every ORDERED list (argument order matters for the main thread's events) of up to `max` entries
@@ -95,6 +96,11 @@ fn scenarios(thorough: bool) -> Vec<Scn> {
         if !thorough && (touching < 2 || ks.len() < 2) {
             continue;
         }
+        // the not-a-directory kind (a walker error other than "not found") takes the place of the missing path: lists with both
+        // only in the thorough tier
+        if !thorough && ks.contains(&Kind::NotDir) && (ks.contains(&Kind::Missing) || ks.len() > 2) {
+            continue;
+        }
         for check in [true, false] {
             for nt in [1usize, 4] {
                 if !thorough && !check && nt == 1 {
@@ -110,6 +116,14 @@ fn scenarios(thorough: bool) -> Vec<Scn> {
                 let mut want_files = BTreeMap::new();
                 for (i, k) in ks.iter().enumerate() {
                     let p = format!("a{}.lua", i);
+                    if *k == Kind::NotDir {
+                        // a regular (formatted) file named with a trailing slash
+                        let b = Kind::Formatted.bytes(i);
+                        tree.add(&p, &b);
+                        want_files.insert(p.clone(), b);
+                        argv.push(format!("{}/", p));
+                        continue;
+                    }
                     if *k != Kind::Missing {
                         let b = k.bytes(i);
                         tree.add(&p, &b);
@@ -122,7 +136,7 @@ fn scenarios(thorough: bool) -> Vec<Scn> {
                     }
                     argv.push(p);
                 }
-                let any_fail = ks.iter().any(|k| matches!(k, Kind::Missing | Kind::Unparseable));
+                let any_fail = ks.iter().any(|k| matches!(k, Kind::Missing | Kind::Unparseable | Kind::NotDir));
                 let any_diff = ks.iter().any(|k| *k == Kind::Unformatted);
                 let want_code = if any_fail { 2 } else if check && any_diff { 1 } else { 0 };
                 v.push(Scn {
